@@ -169,6 +169,12 @@ Proof.
   - cbn [pget]. rewrite E. auto.
 Qed.
 
+Lemma pdel_none k l : pget k l = None -> pdel k l = l.
+Proof.
+  induction l as [|a t IH]; cbn [pget pdel]; [reflexivity|].
+  destruct (p_id a =? k); [discriminate|]. intros H. rewrite IH by exact H. reflexivity.
+Qed.
+
 Lemma ids_pset k s l : ids (pset k s l) = ids l.
 Proof.
   induction l as [|a t IH]; [reflexivity|]. cbn [pset].
@@ -442,7 +448,8 @@ Proof.
     cbn [attached flat_map app] in Hnd, Hfr. fold (attached ops) in Hnd, Hfr.
     cbn [r_peers r_gone] in *. apply NoDup_cons_iff in Hnd as [Hk Hnd].
     destruct (Hfr k (or_introl eq_refl)) as [Fk1 Fk2].
-    unfold inv, fresh. cbn [r_peers r_gone]. rewrite !ids_snoc. cbn [p_id].
+    pose proof (proj2 (pget_none_iff k peers) Fk1) as Gk.
+    unfold inv, fresh. cbn [r_peers r_gone]. rewrite Gk, (pdel_none _ _ Gk), !ids_snoc. cbn [p_id].
     split; split.
     + apply NoDup_snoc; assumption.
     + intros j Hj. apply in_app_iff in Hj as [Hj|[<-|[]]]; [apply Hdis; exact Hj|exact Fk2].
@@ -544,14 +551,17 @@ Proof.
       inversion Est; subst ro st1; clear Est. cbn [app assigned].
       destruct (N.eq_dec j k) as [->|Hne].
       * destruct Hfr as [_ Hfr]. destruct (Hfr k (or_introl eq_refl)) as [F1 F2]. cbn [r_peers r_gone] in F1, F2.
-        apply pget_none_iff in F1, F2.
+        apply pget_none_iff in F1, F2. rewrite (pdel_none _ _ F1), F1 in IH.
         destruct IH as [_ (tail & IHt & IHc)]. split; [cbn [r_gone]; intros _ B; congruence|].
         exists tail. unfold wire_of, pending in *. cbn [r_peers r_gone] in *.
         rewrite pget_app, F1 in IHt, IHc. cbn [pget p_id] in IHt, IHc. rewrite N.eqb_refl in IHt, IHc.
         rewrite F1, F2. split; [exact IHt|exact IHc].
       * eapply HP_same; [|intros X; exact X|exact IH]. unfold same_k. cbn [r_peers r_gone].
-        rewrite pget_app. destruct (pget k peers); [split; reflexivity|].
-        cbn [pget p_id]. replace (j =? k) with false by (symmetry; apply N.eqb_neq; exact Hne). split; reflexivity.
+        rewrite pget_app, pget_pdel_other by congruence. split.
+        -- destruct (pget k peers); [reflexivity|].
+           cbn [pget p_id]. replace (j =? k) with false by (symmetry; apply N.eqb_neq; exact Hne). reflexivity.
+        -- destruct (pget j peers) as [q|] eqn:Eq; [|reflexivity]. cbn [pget]. rewrite (pget_id _ _ _ Eq).
+           replace (j =? k) with false by (symmetry; apply N.eqb_neq; exact Hne). reflexivity.
     + (* RLost *)
       destruct (pget j peers) as [p|] eqn:Ep; inversion Est; subst ro st1; clear Est; cbn [app assigned].
       2:{ eapply HP_same; [|intros X; exact X|exact IH]. split; reflexivity. }
@@ -656,8 +666,11 @@ Lemma rstep_gone st o ro st1 k : rstep st o = (ro, st1) -> pget k (r_peers st) =
 Proof.
   intros H Hk Hat. destruct o as [j|j|j a|j l|m]; cbn [rstep] in H.
   - inversion H; subst ro st1; clear H. split; [discriminate|]. apply same_k_gone; [|exact Hk].
-    unfold same_k. cbn [r_peers r_gone]. rewrite pget_app, Hk. cbn [pget p_id].
-    replace (j =? k) with false by (symmetry; apply N.eqb_neq; apply Hat; reflexivity). split; reflexivity.
+    assert (Hne : j <> k) by (apply Hat; reflexivity).
+    unfold same_k. cbn [r_peers r_gone]. rewrite pget_app, pget_pdel_other, Hk by congruence. cbn [pget p_id].
+    replace (j =? k) with false by (symmetry; apply N.eqb_neq; exact Hne). split; [reflexivity|].
+    destruct (pget j (r_peers st)) as [q|] eqn:Eq; [|reflexivity]. cbn [pget]. rewrite (pget_id _ _ _ Eq).
+    replace (j =? k) with false by (symmetry; apply N.eqb_neq; exact Hne). reflexivity.
   - inversion H; subst ro st1; clear H. split; [discriminate|]. apply same_k_gone; [|exact Hk].
     destruct (pget j (r_peers st)) as [p|] eqn:Ej; [|split; reflexivity].
     assert (Hne : j <> k) by (intros ->; congruence).
@@ -706,6 +719,201 @@ Proof.
   exact (gone_never_targeted ops st1 rs st2 k Hk Hat Hrun).
 Qed.
 
+(** * Every reachable state (any history of attaches - including a peer that re-joins under its identity while an entry of
+      that identity is still queued -, losses, script changes and sends) *)
+
+(** the rotation never holds an identity twice, the table never holds one twice, and every peer of the table is queued *)
+Definition rinv (st : rstate) : Prop :=
+  NoDup (r_rr st) /\ NoDup (ids (r_peers st)) /\ (forall k, In k (ids (r_peers st)) -> In k (r_rr st)).
+
+Lemma existsb_eqb_In k l : existsb (N.eqb k) l = true <-> In k l.
+Proof.
+  rewrite existsb_exists. split.
+  - intros (x & Hx & E). apply N.eqb_eq in E. subst x. exact Hx.
+  - intros H. exists k. split; [exact H|apply N.eqb_refl].
+Qed.
+
+Lemma NoDup_app_tail (l l' : list N) : NoDup (l ++ l') -> NoDup l'.
+Proof.
+  induction l as [|a t IH]; cbn [app]; [auto|]. intros H. apply NoDup_cons_iff in H. tauto.
+Qed.
+
+Lemma send_rinv st m r st' : send st m = (r, st') -> rinv st -> rinv st'.
+Proof.
+  intros H (Hr & Hd & Hq). apply send_post_of_send in H. destruct H as (pre & post & Hrr & Hpre & H).
+  assert (Hq' : forall j, In j (ids (r_peers st)) -> In j post).
+  { intros j Hj. pose proof (Hq j Hj) as Hj'. rewrite Hrr in Hj'. apply in_app_iff in Hj' as [Hj'|Hj']; [|exact Hj'].
+    exfalso. apply Hpre in Hj'. apply pget_none_iff in Hj'. tauto. }
+  rewrite Hrr in Hr. apply NoDup_app_tail in Hr.
+  destruct r as [k|k e| |k].
+  - destruct H as (rest & p & s & -> & Hp & Hs & ->). unfold rinv. cbn [r_rr r_peers]. rewrite ids_pset.
+    apply NoDup_cons_iff in Hr as [Hk Hr].
+    split; [apply NoDup_snoc; assumption|]. split; [exact Hd|].
+    intros j Hj. apply Hq' in Hj. apply in_app_iff. cbn [In] in *. tauto.
+  - destruct H as (rest & p & s & -> & Hp & Hs & _ & _ & ->). unfold rinv. cbn [r_rr r_peers].
+    apply NoDup_cons_iff in Hr as [Hk Hr].
+    split; [exact Hr|]. split; [apply NoDup_pdel; exact Hd|].
+    intros j Hj. apply (In_ids_pdel _ _ _ Hd) in Hj as [Hj Hne]. apply Hq' in Hj.
+    destruct Hj as [E|Hj]; [congruence|exact Hj].
+  - destruct H as (-> & ->). unfold rinv. cbn [r_rr r_peers].
+    split; [constructor|]. split; [exact Hd|]. intros j Hj. exact (Hq' j Hj).
+  - destruct H as (rest & p & s & -> & Hp & Hs & ->). unfold rinv. cbn [r_rr r_peers]. rewrite ids_pset.
+    apply NoDup_cons_iff in Hr as [Hk Hr].
+    split; [apply NoDup_snoc; assumption|]. split; [exact Hd|].
+    intros j Hj. apply Hq' in Hj. apply in_app_iff. cbn [In] in *. tauto.
+Qed.
+
+Lemma rstep_rinv st o : rinv st -> rinv (snd (rstep st o)).
+Proof.
+  intros (Hr & Hd & Hq). destruct o as [k|k|k a|k l|m]; cbn [rstep snd].
+  - unfold rinv. cbn [r_rr r_peers]. rewrite ids_snoc. cbn [p_id].
+    assert (Hsub : forall j, In j (r_rr st) ->
+              In j (if existsb (N.eqb k) (r_rr st) then r_rr st else r_rr st ++ [k])).
+    { intros j Hj. destruct (existsb (N.eqb k) (r_rr st)); [exact Hj|apply in_app_iff; left; exact Hj]. }
+    split; [|split].
+    + destruct (existsb (N.eqb k) (r_rr st)) eqn:E; [exact Hr|]. apply NoDup_snoc; [exact Hr|].
+      intros Hi. apply existsb_eqb_In in Hi. congruence.
+    + apply NoDup_snoc; [apply NoDup_pdel; exact Hd|]. intros Hi. apply (In_ids_pdel _ _ _ Hd) in Hi. tauto.
+    + intros j Hj. apply in_app_iff in Hj as [Hj|[<-|[]]].
+      * apply Hsub, Hq. apply (In_ids_pdel _ _ _ Hd) in Hj. tauto.
+      * destruct (existsb (N.eqb k) (r_rr st)) eqn:E; [apply existsb_eqb_In; exact E|].
+        apply in_app_iff; right; left; reflexivity.
+  - destruct (pget k (r_peers st)) as [p|]; [|exact (conj Hr (conj Hd Hq))]. unfold rinv. cbn [r_rr r_peers].
+    split; [exact Hr|]. split; [apply NoDup_pdel; exact Hd|].
+    intros j Hj. apply Hq. apply (In_ids_pdel _ _ _ Hd) in Hj. tauto.
+  - unfold rinv. cbn [r_rr r_peers]. rewrite ids_retr. auto.
+  - unfold rinv. cbn [r_rr r_peers]. rewrite ids_retr. auto.
+  - destruct (send st m) as [r st'] eqn:Es. cbn [snd]. exact (send_rinv _ _ _ _ Es (conj Hr (conj Hd Hq))).
+Qed.
+
+Lemma rrun_rinv : forall ops st rs st', rinv st -> rrun st ops = (rs, st') -> rinv st'.
+Proof.
+  induction ops as [|o ops IH]; intros st rs st' Hi Hrun; cbn [rrun] in Hrun.
+  - inversion Hrun; subst. exact Hi.
+  - pose proof (rstep_rinv st o Hi) as Hi1. destruct (rstep st o) as [ro st1]. cbn [snd] in Hi1.
+    destruct (rrun st1 ops) as [rs1 st2] eqn:Erun. inversion Hrun; subst. exact (IH _ _ _ Hi1 Erun).
+Qed.
+
+Theorem rr_reachable_inv : forall ops rs st, rrun rstate0 ops = (rs, st) ->
+  NoDup (r_rr st) /\ NoDup (map p_id (r_peers st)) /\ (forall p, In p (r_peers st) -> In (p_id p) (r_rr st)).
+Proof.
+  intros ops rs st Hrun.
+  assert (H0 : rinv rstate0) by (split; [constructor|split; [constructor|intros k []]]).
+  destruct (rrun_rinv ops rstate0 rs st H0 Hrun) as (Hr & Hd & Hq).
+  split; [exact Hr|]. split; [exact Hd|]. intros p Hp. apply Hq. unfold ids. apply in_map. exact Hp.
+Qed.
+
+(** a peer that re-joins while an entry of its identity is still queued takes that entry over *)
+Theorem rejoin_takes_over_entry : forall st k, In k (r_rr st) ->
+  r_rr (snd (rstep st (RAttach k))) = r_rr st /\ pget k (r_peers (snd (rstep st (RAttach k)))) <> None.
+Proof.
+  intros st k Hk. cbn [rstep snd r_rr r_peers]. apply existsb_eqb_In in Hk. rewrite Hk. split; [reflexivity|].
+  rewrite pget_app. destruct (pget k (pdel k (r_peers st))); [discriminate|].
+  cbn [pget p_id]. rewrite N.eqb_refl. discriminate.
+Qed.
+
+Definition is_live (st : rstate) (k : N) : bool := match pget k (r_peers st) with Some _ => true | None => false end.
+
+Lemma is_live_ids st st1 : ids (r_peers st1) = ids (r_peers st) -> forall k, is_live st1 k = is_live st k.
+Proof.
+  intros Hids k. unfold is_live.
+  destruct (pget k (r_peers st1)) eqn:E1, (pget k (r_peers st)) eqn:E; try reflexivity; exfalso.
+  - apply pget_some_ids in E1. apply pget_none_iff in E. rewrite Hids in E1. tauto.
+  - apply pget_some_ids in E. apply pget_none_iff in E1. rewrite Hids in E1. tauto.
+Qed.
+
+(** the loop skips (and drops) queued ids that name no peer of the table *)
+Lemma rr_send_skip : forall pre fuel peers k rest gone enc p s,
+  (forall j, In j pre -> pget j peers = None) -> pget k peers = Some p -> sink_send (p_sink p) enc = (FlOk, s) ->
+  (length pre < fuel)%nat ->
+  rr_send fuel {| r_peers := peers; r_rr := pre ++ k :: rest; r_gone := gone |} enc =
+    (ROk k, {| r_peers := pset k s peers; r_rr := rest ++ [k]; r_gone := gone |}).
+Proof.
+  induction pre as [|j pre IH]; intros fuel peers k rest gone enc p s Hpre Hp Hs Hf;
+    (destruct fuel as [|f]; [cbn [length] in Hf; lia|]); cbn [app rr_send r_rr r_peers r_gone].
+  - rewrite Hp, Hs. reflexivity.
+  - rewrite (Hpre j (or_introl eq_refl)). apply IH with (p := p); [|exact Hp|exact Hs|cbn [length] in Hf; lia].
+    intros i Hi. apply Hpre. right. exact Hi.
+Qed.
+
+Lemma rr_rotation_step_stale : forall st m pre k rest, all_accepting st -> r_rr st = pre ++ k :: rest ->
+  (forall j, In j pre -> pget j (r_peers st) = None) ->
+  pget k (r_peers st) <> None -> lenN (encode_frames m) < 2 ^ 63 ->
+  exists st', send st m = (ROk k, st') /\ r_rr st' = rest ++ [k] /\ all_accepting st' /\
+    ids (r_peers st') = ids (r_peers st).
+Proof.
+  intros [peers rr gone] m pre k rest Ha Hrr Hpre Hk Hl. cbn [r_rr r_peers] in Hrr, Hk, Hpre. subst rr.
+  destruct (pget k peers) as [p|] eqn:Ep; [clear Hk|congruence].
+  destruct (Ha p (pget_In _ _ _ Ep)) as [Ht Hb].
+  destruct (sink_send_accepting _ _ Ht Hb Hl) as (s' & Hs & Hb' & Ht' & _).
+  unfold send. cbn [r_rr].
+  rewrite (rr_send_skip pre _ peers k rest gone _ p s' Hpre Ep Hs) by (rewrite app_length; lia).
+  eexists. split; [reflexivity|]. cbn [r_rr r_peers]. split; [reflexivity|]. split.
+  - intros q Hq. apply In_pset in Hq as [->|Hq]; [cbn [p_sink]; auto|apply Ha; exact Hq].
+  - apply ids_pset.
+Qed.
+
+Lemma filter_cons_split (f : N -> bool) : forall a x l, filter f a = x :: l ->
+  exists pre a', a = pre ++ x :: a' /\ (forall j, In j pre -> f j = false) /\ f x = true /\ filter f a' = l.
+Proof.
+  induction a as [|y a IH]; cbn [filter]; intros x l H; [discriminate|].
+  destruct (f y) eqn:E.
+  - inversion H; subst. exists [], a. split; [reflexivity|]. split; [intros j []|]. split; [exact E|reflexivity].
+  - destruct (IH _ _ H) as (pre & a' & -> & H1 & H2 & H3). exists (y :: pre), a'.
+    split; [reflexivity|]. split; [|split; assumption]. intros j [<-|Hj]; auto.
+Qed.
+
+(** a round over a rotation that may hold stale ids: the live ids are served in queue order *)
+Lemma rr_round_stale : forall ms st a b, all_accepting st -> r_rr st = a ++ b ->
+  length ms = length (filter (is_live st) a) -> Forall (fun m => lenN (encode_frames m) < 2 ^ 63) ms ->
+  fst (rrun st (map RSend ms)) = map ROk (filter (is_live st) a).
+Proof.
+  induction ms as [|m ms IH]; intros st a b Ha Hrr Hlen Hsm; revert Hlen;
+    destruct (filter (is_live st) a) as [|k l] eqn:Ef; intros Hlen; try discriminate; [reflexivity|].
+  destruct (filter_cons_split _ _ _ _ Ef) as (pre & a' & -> & Hpre & Hk & Hl).
+  inversion Hsm as [|? ? Hm Hms]; subst.
+  rewrite <- app_assoc in Hrr. cbn [app] in Hrr.
+  destruct (rr_rotation_step_stale st m pre k (a' ++ b) Ha Hrr) as (st1 & Hs & Hrr1 & Ha1 & Hids).
+  - intros j Hj. apply Hpre in Hj. unfold is_live in Hj. destruct (pget j (r_peers st)); [discriminate|reflexivity].
+  - unfold is_live in Hk. destruct (pget k (r_peers st)); [discriminate|discriminate].
+  - exact Hm.
+  - rewrite <- app_assoc in Hrr1.
+    pose proof (is_live_ids st st1 Hids) as Hlive.
+    specialize (IH st1 a' (b ++ [k]) Ha1 Hrr1).
+    rewrite (filter_ext _ _ Hlive a') in IH.
+    cbn [map rrun rstep]. rewrite Hs. destruct (rrun st1 (map RSend ms)) as [rs st2].
+    cbn [fst snd app map] in *. rewrite IH; [reflexivity| |exact Hms]. cbn [length] in Hlen. congruence.
+Qed.
+
+(** strict rotation in every reachable state: with n peers whose connections accept, n consecutive sends reach the n peers,
+    each exactly once, in queue order *)
+Theorem rr_strict_rotation : forall ops rs st ms, rrun rstate0 ops = (rs, st) ->
+  all_accepting st -> length ms = length (r_peers st) ->
+  Forall (fun m => lenN (encode_frames m) < 2 ^ 63) ms ->
+  let live := filter (is_live st) (r_rr st) in
+  fst (rrun st (map RSend ms)) = map ROk live /\ NoDup live /\
+  (forall p, In p (r_peers st) -> In (p_id p) live) /\ length live = length (r_peers st).
+Proof.
+  intros ops rs st ms Hrun Ha Hlen Hsm live.
+  destruct (rr_reachable_inv _ _ _ Hrun) as (Hr & Hd & Hq).
+  assert (Hnd : NoDup live) by (apply NoDup_filter; exact Hr).
+  assert (Hin : forall p, In p (r_peers st) -> In (p_id p) live).
+  { intros p Hp. apply filter_In. split; [apply Hq; exact Hp|]. unfold is_live.
+    destruct (pget (p_id p) (r_peers st)) eqn:E; [reflexivity|]. apply pget_none_iff in E.
+    exfalso. apply E. unfold ids. apply in_map. exact Hp. }
+  assert (Hll : length live = length (r_peers st)).
+  { rewrite <- (map_length p_id (r_peers st)).
+    assert (L1 : (length live <= length (map p_id (r_peers st)))%nat).
+    { apply NoDup_incl_length; [exact Hnd|]. intros k Hk. apply filter_In in Hk as [_ Hk]. unfold is_live in Hk.
+      destruct (pget k (r_peers st)) eqn:E; [|discriminate]. exact (pget_some_ids _ _ _ E). }
+    assert (L2 : (length (map p_id (r_peers st)) <= length live)%nat).
+    { apply NoDup_incl_length; [exact Hd|]. intros k Hk. apply in_map_iff in Hk as (p & <- & Hp). apply Hin; exact Hp. }
+    lia. }
+  split; [|split; [exact Hnd|split; [exact Hin|exact Hll]]].
+  apply (rr_round_stale ms st (r_rr st) []); [exact Ha|symmetry; apply app_nil_r| |exact Hsm].
+  fold live. congruence.
+Qed.
+
 (** non-vacuity: three peers, the second one's connection breaks after 3 octets *)
 Example rr_example :
   let ops := [RAttach 1; RAttach 2; RAttach 3; RPlan 2 [Wrote 3; WErr 1];
@@ -730,4 +938,7 @@ Print Assumptions rr_history_prefix.
 Print Assumptions rr_history_complete.
 Print Assumptions gone_never_targeted.
 Print Assumptions failed_never_targeted.
+Print Assumptions rr_reachable_inv.
+Print Assumptions rejoin_takes_over_entry.
+Print Assumptions rr_strict_rotation.
 Print Assumptions rr_example.
